@@ -127,7 +127,7 @@ func genC05Harness(u *PkgUnit, minL int) (int, error) {
 	sb.WriteString("\thdr := http.Header{}\n\tquery := url.Values{}\n")
 	emitAcceptAllSecurity(&sb, u)
 	emitRequiredParams(&sb, infosOps(infos2ops(infos)))
-	sb.WriteString("\tw := newVerifRec()\n\tu := &url.URL{Path: path}\n\tvrt.SetQuery(u, query)\n\tr := &http.Request{Method: method, URL: u, Header: hdr}\n\tvrt.Enter()\n\tapi.ServeHTTP(w, r)\n")
+	sb.WriteString("\tw := newVerifRec()\n\tu := &url.URL{Path: path}\n\tvrt.SetQuery(u, query)\n\tr := &http.Request{Method: method, URL: u, Header: hdr, Body: http.NoBody}\n\tvrt.Enter()\n\tapi.ServeHTTP(w, r)\n")
 	n := 0
 	for _, in := range infos {
 		t := in.op.Tmpl
